@@ -40,6 +40,9 @@ def plan(ctx):
     P.append(sweep.family_shards(PROP, "U-X", j))
     P.append(sweep.universe_shards(PROP, "U-S5r", j, stride=50021 if ctx.thorough else 1000003, seed=ctx.seed))
     P.append(sweep.universe_shards(PROP, "U-S6r", j, stride=20000003 if ctx.thorough else 400000009, seed=ctx.seed))
+    P.append(sweep.family_shards(PROP, "U-WIDE", j))
+    P.append(sweep.family_shards(PROP, "U-BIG", j))
+    P.append(sweep.family_shards(PROP, "U-MF", j))
     from ._plans import debug_log_parts
     P.extend(debug_log_parts(PROP, ctx))
     return P
@@ -49,7 +52,7 @@ def _vacuity(tot):
     cl = tot.get("classes", {})
     for need in ("adjacent", "separated", "all-dead", "duplicated-target", "first", "last"):
         if cl.get(need, 0) < 5:
-            raise par.HarnessError("C03 vacuity guard: class %s has %d members" % (need, cl.get(need, 0)))
+            raise par.GuardError("C03 vacuity guard: class %s has %d members" % (need, cl.get(need, 0)))
 
 
 def run(ctx):
